@@ -695,15 +695,22 @@ func (r *RegisteredDecoys) markActive(d *DecoyRegistration) {
 	}
 
 	if regTimeout, ok := r.decoysTimeouts[timeoutIndex(d.PhantomIp.String(), t.GetIdentifier(d))]; ok {
+		// Announce the registration that is tracked under this key - the caller may still hold
+		// the object of an earlier lifetime (expired, swept and registered again, possibly from
+		// another client address), whose fields are stale.
+		if tracked, ok := r.decoys[regTimeout.decoy][regTimeout.identifier]; ok {
+			if !tracked.Valid {
+				// The registration tracked now has not been validated (its liveness probe is
+				// still running, or it was refused): it carries no connection and must not be
+				// announced.
+				return
+			}
+			d = tracked
+		}
 		regTimeout.status = regStatusUsed
 
 		// Since we update the applicable timeout here, we should update that
-		// timeout in the detector side. Announce the registration that is tracked under this
-		// key - the caller may still hold the object of an earlier lifetime (expired, swept and
-		// registered again, possibly from another client address), whose fields are stale.
-		if tracked, ok := r.decoys[regTimeout.decoy][regTimeout.identifier]; ok {
-			d = tracked
-		}
+		// timeout in the detector side.
 		r.updateInDetector(d)
 	}
 }
